@@ -32,6 +32,9 @@ CHECKS = {
  "C10": dict(cat="exploration", technique="exhaustive enumeration of base vectors (token tree) x every insertion position of the help/version token; reference level-finder; outcome compared byte-for-byte with the owning level's canonical help",
    text="For conventional levels, command trees, general shapes and adjacent groups every vector up to the bound gets --help/-h/--version/-V (and custom help names) inserted at every position left of `--`; the outcome must be stdout and equal to the help/version text of the level owning that position; unconfigured version is an ordinary unknown flag.",
    note="Positions right of an enclosing-level option written after a command name are skipped (ownership not fixed by the documentation); for general shapes the level is judged only while no command name precedes the position.", ref="4/C10"),
+ "C04": dict(cat="exploration", technique="exhaustive enumeration of a shape grammar (filtered by check_invariants) x hostile byte-string vectors x 17 modes under catch_unwind in supervised worker processes (panic / process death / hang isolation), plus run-history comparison",
+   text="About 8500 definitions (every leaf under every wrapper and wrapper pair, every seq/alt/adjacent combination, rotating option-level configurations with styled non-ASCII texts) are run on every single hostile item and every pair of the sharpest ones in parse mode, completion revisions 0/1/7/8/9 with and without an application name, completion marker first/last, and through render_markdown/html/manpage; any panic, process exit, abort or stall is a violation; outcomes must be identical on a used object and on a fresh one in reverse order.",
+   note="Hang = a worker makes no progress for 120 s (quick) / 600 s (thorough); polynomial slowness on 600-character items is not a hang. Known finding F9 (hidden adjacent group without a required first item).", ref="4/C04"),
 }
 NOT_YET = {}
 def main():
